@@ -227,6 +227,13 @@ RETCODE adfUndelDir ( struct AdfVolume * vol,
 
     strncpy(name, entry->dirName, entry->nameLen);
     name[(int)entry->nameLen] = '\0';
+    /* the entry comes back at the end of its hash chain: the link it had in its old chain is stale */
+    if ( entry->nextSameHash != 0 ) {
+        entry->nextSameHash = 0;
+        rc = adfWriteDirBlock ( vol, entry->headerKey, entry );
+        if ( rc != RC_OK )
+            return rc;
+    }
     /* insert the entry in the parent hashTable, with the headerKey sector pointer */
     adfSetBlockUsed(vol,entry->headerKey);
     if ( adfCreateEntry ( vol, &parent, name, entry->headerKey ) == -1 )
@@ -298,6 +305,13 @@ RETCODE adfUndelFile ( struct AdfVolume *        vol,
 
     strncpy(name, entry->fileName, entry->nameLen);
     name[(int)entry->nameLen] = '\0';
+    /* the entry comes back at the end of its hash chain: the link it had in its old chain is stale */
+    if ( entry->nextSameHash != 0 ) {
+        entry->nextSameHash = 0;
+        rc = adfWriteFileHdrBlock ( vol, entry->headerKey, entry );
+        if ( rc != RC_OK )
+            return rc;
+    }
     /* insert the entry in the parent hashTable, with the headerKey sector pointer */
     if ( adfCreateEntry(vol, &parent, name, entry->headerKey) == -1 )
         return RC_ERROR;
